@@ -107,7 +107,13 @@ pub fn run_blocking(w: bool, f: &Option<DltFilterConfig>, sched: &[Step], data: 
     let pf = processed(f, data.len() % 2 == 0);
     let mut out = vec![];
     let src = SchedSource::new(data.to_vec(), sched);
-    let mut reader = dlt_core::read::DltMessageReader::new(src, w);
+    // default capacities, the smallest permitted buffer (= the maximal message), and one in between
+    const MAX_LEN: usize = 16 + 65535;
+    let mut reader = match data.len() % 3 {
+        0 => dlt_core::read::DltMessageReader::new(src, w),
+        1 => dlt_core::read::DltMessageReader::with_capacity(MAX_LEN, MAX_LEN, src, w),
+        _ => dlt_core::read::DltMessageReader::with_capacity(MAX_LEN + 4096, MAX_LEN, src, w),
+    };
     for _ in 0..MAX_CALLS {
         let r = guard(|| dlt_core::read::read_message(&mut reader, pf.as_ref()));
         match r {
@@ -133,7 +139,12 @@ pub fn run_async(w: bool, f: &Option<DltFilterConfig>, sched: &[Step], data: &[u
     let pf = processed(f, data.len() % 2 == 0);
     let mut out = vec![];
     let src = SchedSource::new(data.to_vec(), sched);
-    let mut reader = dlt_core::stream::DltStreamReader::new(src, w);
+    const MAX_LEN: usize = 16 + 65535;
+    let mut reader = match data.len() % 3 {
+        0 => dlt_core::stream::DltStreamReader::new(src, w),
+        1 => dlt_core::stream::DltStreamReader::with_capacity(MAX_LEN, MAX_LEN, src, w),
+        _ => dlt_core::stream::DltStreamReader::with_capacity(MAX_LEN + 4096, MAX_LEN, src, w),
+    };
     for _ in 0..MAX_CALLS {
         let r = guard(|| {
             futures::executor::block_on(dlt_core::stream::read_message(&mut reader, pf.as_ref()))
